@@ -73,6 +73,8 @@ def run(prog: Program, rep: Report):
         from .c19 import r3_arg_sort
         r3_arg_sort(prog, rep, "C09.R12")
     from .ownership import rule_owned_storage
+    from .ownership import rule_no_class_state
+    rule_no_class_state(prog, rep, "C09.R13", [sf.sset, sf.smap])
     rep.rule("C09.R11", "SortedSet / SortedMap own the arrays they mutate in place: every value stored into the key / value storage is "
              "created by the storing method (display, comprehension, list()/sorted()/copy/slice) or derived from such a value, "
              "never another object's field, a parameter or another field of the instance", floor=3)
